@@ -175,6 +175,9 @@ const letters = "abcdefghijklmnopqrstuvwxyz"
 func (n *namer) fresh(exportedBias int) string {
 	for {
 		l := 1 + n.r.IntN(7)
+		if wideMode && n.r.IntN(4) == 0 {
+			l = 40 + n.r.IntN(60) // long names
+		}
 		b := make([]byte, 0, l+1)
 		for i := 0; i < l; i++ {
 			c := letters[n.r.IntN(26)]
@@ -196,6 +199,10 @@ func (n *namer) fresh(exportedBias int) string {
 			b[0] = b[0] - 'a' + 'A'
 		}
 		s := string(b)
+		if wideMode && n.r.IntN(6) == 0 {
+			// identifiers with Latin-1 letters (the model's to_lower covers the Latin-1 Supplement)
+			s += []string{"\u00c4", "\u00e9", "\u00d6x", "\u00fc", "\u00c5"}[n.r.IntN(5)]
+		}
 		if n.take(s) {
 			return s
 		}
@@ -215,7 +222,25 @@ func (n *namer) take(s string) bool {
 
 // ---------------------------------------------------------------- random enum definitions (C04 shape)
 
+// wideMode: the widened search after a broken tie goes beyond the caps of the ordinary generator — more than 40
+// constants (sizes 9, 17, 33, 41, 65, 129 …), up to 8 trait columns, long and non-ASCII names, values around
+// every width boundary — and is steered by the integer literals found in the source of the tree under test
+// (thresholds such as 15 or 64: sizes and values n-1, n, n+1).
+var (
+	wideMode bool
+	steer    []int64
+)
+
 func pickCount(r *rand.Rand) int {
+	if wideMode {
+		sizes := []int{9, 17, 33, 41, 65, 129}
+		for _, l := range steer {
+			if l >= 2 && l <= 160 {
+				sizes = append(sizes, int(l)-1, int(l), int(l)+1)
+			}
+		}
+		return sizes[r.IntN(len(sizes))]
+	}
 	switch x := r.IntN(100); {
 	case x < 3:
 		return 1
@@ -300,6 +325,16 @@ func pickValues(r *rand.Rand, u under, m int) (run []*big.Int, step int64, extra
 	for len(run)+len(extras) < m && tries < 10000 {
 		tries++
 		var v *big.Int
+		if wideMode && r.IntN(3) == 0 {
+			// around a literal of the source, or around a width boundary
+			if len(steer) > 0 && r.IntN(2) == 0 {
+				v = bigOf(steer[r.IntN(len(steer))] + int64(r.IntN(3)) - 1)
+			} else {
+				v = new(big.Int).Add(new(big.Int).Lsh(bigOf(1), uint([]int{6, 7, 8, 15, 16, 31, 32, 63}[r.IntN(8)])), bigOf(int64(r.IntN(3)-1)))
+			}
+			add(&extras, v)
+			continue
+		}
 		switch r.IntN(12) {
 		case 0:
 			v = tyMin(u)
